@@ -153,3 +153,31 @@ Lemma use_checked k :
   (py_truth (kk_use k) = true -> py_eq (kk_use k) (PStr (s_ "enc")) = false ->
    check_use_enc k = Err (EJose UnsupportedKeyUseError)).
 Proof. split; [apply check_use_enc_ok | apply check_use_enc_other]. Qed.
+
+(* ---------- the registry the entry points select ---------- *)
+From Gen Require Import Tables.
+
+(* with no registry argument the effective verify_all_recipients is True, whatever algorithms= is;
+   with algorithms= given it is True whatever registry= is; only a caller's own registry can say False *)
+Lemma verify_all_default algorithms : g_verify_all (jwe_sel algorithms None) = true.
+Proof. unfold jwe_sel. destruct algorithms as [[|a l]|]; reflexivity. Qed.
+
+Lemma verify_all_algorithms a l reg : g_verify_all (jwe_sel (Some (a :: l)) reg) = true.
+Proof. reflexivity. Qed.
+
+Lemma verify_all_false_only_by_caller algorithms reg :
+  g_verify_all (jwe_sel algorithms reg) = false -> exists r, reg = Some r /\ g_verify_all r = false.
+Proof.
+  unfold jwe_sel. destruct algorithms as [[|a l]|]; destruct reg as [r|]; simpl; intro H;
+    try discriminate; eauto.
+Qed.
+
+(* hence: under the selected registry, without a caller's registry, EVERY recipient must yield the CEK *)
+Lemma sel_all_recipients_yield O algorithms o m :
+  perform_decrypt O (jwe_sel algorithms None) o = Ok m ->
+  exists e cek, forall r, In r (j_recips o) -> yields O (jwe_sel algorithms None) e o r cek.
+Proof.
+  intro H. apply perform_decrypt_sound in H.
+  destruct H as [encv [e [cek [aad [msg [_ [_ [_ [_ [_ [ALL _]]]]]]]]]]].
+  exists e, cek. apply ALL. apply verify_all_default.
+Qed.
